@@ -74,4 +74,4 @@ def run(ctx):
     os.remove(res["out_path"])
     ctx.assumptions += ["TLC evaluates the specification correctly",
                         "the exported trie is what the public iterator yields from INITIAL_BOOOK_MOVES (node identity = the Debug text of BookMoves)",
-                        "nodes not reachable from the root are not constructible through the safe API and are out of scope"]
+                        "the two nodes the public API hands out are the root and the empty book; other table indices are not constructible through the safe API and are out of scope"]
